@@ -249,8 +249,20 @@ func (c *Ctx) ruleErrorDisciplinePkgs(rule string, pkgs []string, tolerated map[
 			n += k
 			for _, s := range sites {
 				key := fk + "|" + s.Callee
-				if _, ok := tolerated[key]; ok {
+				if why, ok := tolerated[key]; ok {
 					used[key] = true
+					// "fallback:<callee>|reason": continuing is intended only because another call decides
+					// instead - every success return after the failure lies behind that call's success
+					if strings.HasPrefix(why, "fallback:") {
+						fb := strings.SplitN(strings.TrimPrefix(why, "fallback:"), "|", 2)[0]
+						if okFb, path := c.errHandledByFallback(fn, s.Call, fb); !okFb {
+							s.Kind = "fallback " + fb + " bypassed"
+							s.Path = path
+							if _, dup := bad[s.Callee]; !dup {
+								bad[s.Callee] = s
+							}
+						}
+					}
 					continue
 				}
 				if _, dup := bad[s.Callee]; !dup {
@@ -313,9 +325,9 @@ func (c *Ctx) ruleErrorDisciplinePkgs(rule string, pkgs []string, tolerated map[
 // errToleratedMint: the sites of the mint side where today's tree deliberately continues after a failed call
 // (reference function + callee; each confirmed by reading).
 var errToleratedMint = map[string]string{
-	"cashu.DecodeToken|cashu.DecodeTokenV4":                                                          "V4 is tried first; on failure the V3 decoder decides and its error is returned",
-	"cashu.DecodeTokenV3|encoding/base64.(*Encoding).DecodeString":                                   "URL-safe alphabet failed: the standard alphabet is tried, whose error is returned",
-	"cashu.DecodeTokenV4|encoding/base64.(*Encoding).DecodeString":                                   "URL-safe alphabet failed: the raw alphabet is tried, whose error is returned",
+	"cashu.DecodeToken|cashu.DecodeTokenV4":                                                          "fallback:cashu.DecodeTokenV3|V4 is tried first; on failure the V3 decoder decides and its error is returned",
+	"cashu.DecodeTokenV3|encoding/base64.(*Encoding).DecodeString":                                   "fallback:encoding/base64.(*Encoding).DecodeString|the padded URL-safe alphabet failed: the raw alphabet is tried, whose error is returned",
+	"cashu.DecodeTokenV4|encoding/base64.(*Encoding).DecodeString":                                   "fallback:encoding/base64.(*Encoding).DecodeString|the padded URL-safe alphabet failed: the raw alphabet is tried, whose error is returned",
 	"cashu/nuts/nut01.(*GetKeysResponse).UnmarshalJSON|encoding/json.Unmarshal":                      "keysets with a non-hex id or undecodable keys are skipped by design (foreign-unit keysets)",
 	"cashu/nuts/nut06.(*MintInfo).UnmarshalJSON|encoding/json.Unmarshal":                             "optional info fields: an undecodable optional field is left at its zero value",
 	"cashu/nuts/nut06.(*Nuts).UnmarshalJSON|encoding/json.Unmarshal":                                 "NUT-15 settings come in two historical shapes; the second is tried when the first fails",
@@ -361,4 +373,30 @@ var errToleratedWallet = map[string]string{
 	"wallet/storage.(*BoltDB).MigrateInvoicesToQuotes|bbolt.(*DB).Update":       "one-off migration clean-up of the old bucket",
 	"wallet/storage.(*BoltDB).MigrateInvoicesToQuotes|bbolt.(*Tx).DeleteBucket": "one-off migration clean-up of the old bucket",
 	"wallet/storage.(*BoltDB).SaveMnemonicSeed|bbolt.(*Bucket).Put":             "written once at wallet creation inside one Update whose own error is returned",
+}
+
+// errHandledByFallback: after a failure of call, every return of fn that may report success is reached only
+// through the success of a call to the named fallback callee (or of call itself).
+func (c *Ctx) errHandledByFallback(fn *ssa.Function, call ssa.CallInstruction, fallback string) (bool, string) {
+	o := c.P.OriginsOf(fn)
+	cut := NewCut()
+	for _, e := range o.AllEdges() {
+		f := o.EdgeFact(e)
+		if f == nil || f.Kind != "errnil" || !f.Pos {
+			continue
+		}
+		for _, a := range f.A.Alts() {
+			if a != nil && a.K == "call" && a.Call != nil && (a.Call == call || c.P.Describe(a.Call).Name == fallback) {
+				cut.Edges[e] = true
+			}
+		}
+	}
+	start := PointOf(call)
+	start.Idx++
+	for _, r := range o.SuccessReturns() {
+		if reach, path := Reach(start, PointOf(r), cut); reach {
+			return false, c.P.PathString(path)
+		}
+	}
+	return true, ""
 }
